@@ -3,7 +3,7 @@
    slave :: pdu ++ crc and nothing before; proofs/RtuCarried.v shows this for every typed request /
    response that fits 253 bytes, the serial-line custom codes, and exception responses. *)
 From Coq Require Import Lia.
-From TM Require Import Base Frame Pdu Crc RtuCodec Framed Spec FramedProofs RtuProofs RtuCarried StreamProofs.
+From TM Require Import Base Frame Pdu Crc RtuCodec Framed Spec FramedProofs RtuProofs RtuCarried StreamProofs NoiseFrag.
 
 (* a stream consisting only of valid carried frames is delivered completely and in order under
    EVERY composition into read chunks, server and client side *)
@@ -48,4 +48,30 @@ Proof. exact (noise_then_frame rsp_pdu_len rsp_pdu_len_no_panic is_noise rsp_noi
 
 (* non-vacuity: a concrete noisy stream *)
 Example C11_ex : fst (rtu_frame_dec req_pdu_len ([0x00; 0x80; 0x41] ++ rtu_frame 0x64 [0x11] ++ [0x99])) = [0x99].
+Proof. vm_compute. reflexivity. Qed.
+
+(* ---- noise under EVERY fragmentation (the property's own wording) ----
+   a carried frame whose slave id is noise-valued too, preceded by noise bytes ns and followed by anything x, the
+   stream cut into read chunks in ANY way: exactly the noise is discarded, the frame is delivered, x is left --
+   provided there are at most 18 noise bytes ("up to 16 noise bytes under every fragmentation") OR no read is longer
+   than 18 bytes ("any amount of noise that arrives byte by byte", and more) *)
+Theorem C11_noise_any_fragmentation_server : forall cs ns f i x,
+  noisy_rtu_req f i -> forallb is_noise ns = true -> Forall nonempty cs -> concat cs = ns ++ f ++ x ->
+  ((length ns <= 18)%nat \/ short_chunks cs) ->
+  exists b' cs', next rtu_server_dec rstate0 (datas cs) None = (NItem i, mkR b' false true false, datas cs', None)
+                 /\ b' ++ concat cs' = x /\ Forall nonempty cs'.
+Proof. exact rtu_server_noise_any_fragmentation. Qed.
+Theorem C11_noise_any_fragmentation_client : forall cs ns f i x,
+  noisy_rtu_rsp f i -> forallb is_noise ns = true -> Forall nonempty cs -> concat cs = ns ++ f ++ x ->
+  ((length ns <= 18)%nat \/ short_chunks cs) ->
+  exists b' cs', next rtu_client_dec rstate0 (datas cs) None = (NItem i, mkR b' false true false, datas cs', None)
+                 /\ b' ++ concat cs' = x /\ Forall nonempty cs'.
+Proof. exact rtu_client_noise_any_fragmentation. Qed.
+
+(* non-vacuity: 300 noise bytes arriving byte by byte, then a frame in two pieces *)
+Example C11_bytewise_noise_example :
+  let f := rtu_frame 0x64 [0x03; 0x00; 0x01; 0x00; 0x01] in
+  fst (fst (fst (next rtu_server_dec rstate0
+     (datas (map (fun b => [b]) (flat_map (fun _ => [0x00; 0x80; 0x41]) (seq 0 100)) ++ [firstn 3 f; skipn 3 f])) None)))
+  = NItem ((0, 0x64), ReqReadHoldingRegisters 1 1).
 Proof. vm_compute. reflexivity. Qed.
